@@ -18,7 +18,22 @@ fn read_hex_lines(m: &BTreeMap<String, String>) -> Vec<String> {
 }
 
 /// Removes source-location members so that two parses of differently laid out text can be compared.
+fn is_position(v: &serde_json::Value) -> bool {
+    v.as_object()
+        .is_some_and(|m| m.contains_key("line") && m.contains_key("column") && m.len() <= 3)
+}
+
+fn is_span(v: &serde_json::Value) -> bool {
+    v.as_object().is_some_and(|m| {
+        m.len() == 2 && m.get("start").is_some_and(is_position) && m.get("end").is_some_and(is_position)
+    })
+}
+
 fn erase_locations(v: &mut serde_json::Value) {
+    if is_span(v) || is_position(v) {
+        *v = serde_json::Value::Null;
+        return;
+    }
     match v {
         serde_json::Value::Object(map) => {
             map.retain(|k, _| !(k == "loc" || k == "location" || k == "span" || k == "position" || k.ends_with("_loc")));
@@ -32,6 +47,38 @@ fn erase_locations(v: &mut serde_json::Value) {
             }
         }
         _ => {}
+    }
+}
+
+fn first_diff(a: &serde_json::Value, b: &serde_json::Value, path: String) -> String {
+    match (a, b) {
+        (serde_json::Value::Object(x), serde_json::Value::Object(y)) => {
+            for (k, v) in x {
+                match y.get(k) {
+                    None => return format!("{path}/{k} (missing after re-parse: {v})"),
+                    Some(w) if w != v => return first_diff(v, w, format!("{path}/{k}")),
+                    _ => {}
+                }
+            }
+            for k in y.keys() {
+                if !x.contains_key(k) {
+                    return format!("{path}/{k} (only after re-parse)");
+                }
+            }
+            path
+        }
+        (serde_json::Value::Array(x), serde_json::Value::Array(y)) => {
+            if x.len() != y.len() {
+                return format!("{path} (length {} vs {})", x.len(), y.len());
+            }
+            for (i, (v, w)) in x.iter().zip(y.iter()).enumerate() {
+                if v != w {
+                    return first_diff(v, w, format!("{path}/{i}"));
+                }
+            }
+            path
+        }
+        _ => format!("{path}: {a} vs {b}"),
     }
 }
 
@@ -61,7 +108,8 @@ pub fn parse_roundtrip(m: &BTreeMap<String, String>) -> serde_json::Value {
             erase_locations(&mut j1);
             erase_locations(&mut j2);
             if j1 != j2 {
-                return Err(format!("re-parsed AST differs from the original AST (printed: {t1:?})"));
+                let at = first_diff(&j1, &j2, String::new());
+                return Err(format!("re-parsed AST differs from the original AST at {at} (printed: {t1:?})"));
             }
             Ok(true)
         }));
